@@ -182,6 +182,7 @@ func loadProgView(root string, bc BuildConfig, inline bool) (*Prog, error) {
 		}
 		if os.Getenv("SLUGCHECK_NOINLINE") == "" {
 			P.foldDefaultZeroFields()
+			P.dropNewSurface()
 		}
 	}
 	if want := os.Getenv("SLUGCHECK_DUMPFN"); want != "" {
